@@ -5,6 +5,7 @@
 package main
 
 import (
+	"flag"
 	"fmt"
 	"strings"
 	"time"
@@ -76,6 +77,7 @@ func judge(r *vlogrun.Rec, file string, line int, chunks [][]byte) string {
 }
 
 func main() {
+	flag.Parse() // before anything asks for the tier
 	passes := append(vlogrun.StandardPasses(),
 		vlogrun.Pass{Name: "group-names", Gen: vlogrun.GenGroupNames(vcommon.Thorough()), TrackStates: false},
 		vlogrun.Pass{Name: "class-strings(<=3 runes of 15 classes, 4 positions)", Gen: vlogrun.GenClassPairs(), TrackStates: false})
